@@ -485,6 +485,10 @@ def expand(n):
     if o in CATCH_KIND:
         if o.endswith("return_false"):
             return E("TRY_FALSE", k, a=CATCH_KIND[o])
+        if len(k) > 1:
+            # try_catch_*_raise_nested< R1, R2, ... > is implemented over internal::seq< R1, R2, ... >, which is the rule that
+            # raise_nested() names: the expected message is built from that type when the tables are filled in
+            return E("TRY_NESTED", k, a=CATCH_KIND[o], blame=k[0], s="@ISEQ:" + ", ".join(ctype(x) for x in k))
         return E("TRY_NESTED", k, a=CATCH_KIND[o], blame=k[0])
     if o == "enable":
         return E("ENABLE", k)
@@ -776,7 +780,9 @@ def emit_grammar(g, gi, cfgset_macro="VF_CFGS"):
         parts = ["n.o = pm::%s;" % m.op]
         if m.kids:
             parts.append("n.kids = { %s };" % ", ".join(str(k) for k in m.kids))
-        if m.s:
+        if m.s and m.s.startswith("@ISEQ:"):
+            parts.append("n.s = std::string( \"parse error matching \" ) + std::string( vf::rule_name< tao::pegtl::internal::seq< %s > >() );" % m.s[6:])
+        elif m.s:
             parts.append("n.s = std::string( \"%s\", %d );" % ("".join("\\x%02x" % ord(c) for c in m.s), len(m.s)))
         if m.a:
             parts.append("n.a = %d;" % m.a)
@@ -935,6 +941,9 @@ class Gen:
             return N("one", s=r.choice([";", "]", "=", "[", ",", ">", " ", "'", ";]", "=;"]))
         if a == "punct_string":
             return N("string", s=r.choice([";;", "];", "a;", "=]", "; ", ">;"]))
+        # ---- empty packs: one<> never matches, not_one<> is any, string<> / seq<> succeed empty, sor<> fails ----
+        if a == "empty_pack":
+            return r.choice([N("one", s=""), N("not_one", s=""), N("not_one", s=""), N("string", s=""), N("seq", []), N("sor", [])])
         # ---- bytes that text-oriented code mishandles: NUL inside literals, 0xff / 0x80 (negative as char) ----
         if a == "bin_one":
             return N("one", s=r.choice(["\x00", "\xff", "\x80", "\x00a", "a\xff"]))
@@ -1035,7 +1044,7 @@ class Gen:
             return N(o, msg="msg%d" % r.randrange(3))
         if o in CATCH_KIND:
             if o.endswith("raise_nested"):
-                return N(o, k(1))  # one inner rule: the rule that is blamed
+                return N(o, k(r.choice([1, 1, 2])))  # with several inner rules the library blames its internal seq< R... >
             return N(o, k(r.choice([1, 1, 2])))
         if o == "separated_seq":
             return N(o, k(r.choice([2, 3, 4])))
